@@ -2,6 +2,7 @@
 //!   vh gen    <Cxx> --tier quick|thorough --seed N --out trace.ndjson
 //!   vh replay <Cxx> --in cases.ndjson --out trace.ndjson
 mod util;
+mod arith;
 mod c01;
 mod c02;
 mod c08;
@@ -36,6 +37,8 @@ fn main() {
     match (mode.as_str(), prop.as_str()) {
         ("gen", "C01") => c01::generate(&a),
         ("gen", "C10") => c10::generate(&a),
+        ("gen", "C04") => arith::generate_c04(&a),
+        ("gen", "C05") => arith::generate_c05(&a),
         ("gen", "C02") => c02::generate_c02(&a),
         ("gen", "C08") => c08::generate(&a),
         ("gen", "C09") => c02::generate_c09(&a),
